@@ -6,7 +6,7 @@ from harness.sim import Sim
 from harness import monitors
 from harness.witness._common import result, tag
 
-PROPERTIES = ["C01", "C02", "C04"]
+PROPERTIES = ["C01", "C02", "C04", "C20"]
 ORDER = 10
 
 
@@ -59,12 +59,21 @@ def scenario(repo, seed=1):
         sim.deliver_all(among={L, helper})
         watch.step()
     viols = watch.out + monitors.sm_safety(sim)
+    # C20: in its second term of office the leader reaches ONE other voter of four - no SUCCESS while cut off
+    for (node, c, res, err) in sim.callbacks:
+        if c == cid and err == 0:
+            viols.append({"signature": "fallback:success-while-cut-off",
+                          "what": "node %s, leader for the second time and reaching only %s of the 4 other voters, acknowledged 'NEW' with "
+                                  "SUCCESS (result %r) on the strength of an acknowledgement %s produced in its first term of office"
+                                  % (L, helper, res, F)})
     return sim, viols, None
 
 
 def run(ctx):
     t0 = time.time()
     sim, viols, note = scenario(ctx.repo)
+    if ctx.pid == "C20":
+        viols = [v for v in viols if v["signature"] == "fallback:success-while-cut-off"]
     r = result("witness.d03_stale_ack_across_terms", tag(viols, "d03_stale_ack_across_terms", {}),
                {"schedule_events": len(sim.trace), "note": note}, t0)
     return r
